@@ -63,9 +63,10 @@ func c06History(rng *rand.Rand, hi int) plogCfg {
 	case 2:
 		cfg.BufferMaxMsgs = 3
 	}
-	for p := 0; p < 2; p++ {
+	nprod := 2 + rng.Intn(2)
+	for p := 0; p < nprod; p++ {
 		var reqs []plogReq
-		for b := 0; b < 3; b++ {
+		for b := 0; b < 3-(nprod-2); b++ {
 			id := fmt.Sprintf("h%d/p%d/%d", hi, p, b)
 			n := 1 + rng.Intn(3)
 			part := int32(0)
@@ -244,9 +245,9 @@ func opKind(label string) string {
 
 func TestVerifC06Crash(t *testing.T) {
 	r := verifkit.Start(t, "C06", "crash")
-	defer r.Finish("history = 2 producers x 3 batches (1-3 records) on 2 partitions + 1 consumer issuing 6 fetches, buffer thresholds {never, every append, 3 msgs}, index interval {1,100}, cache on/off, one fixed interleaving per history; it is run fault-free to obtain its boundary-operation sequence o_0..o_n-1 (upload_segment, upload_index, update_offsets), then re-run for EVERY k in 0..n-1 in two variants: crash just before o_k, and o_k's effect applied with the broker dead before learning it. evaluations = crash runs + baseline runs; distinct = (history, k, variant); non-trivial = crash run in which the crash point was reached and >= 1 acknowledgement preceded it",
+	defer r.Finish("history = 2 producers x 3 batches or 3 producers x 2 batches (1-3 records) on 2 partitions + 1 consumer issuing 6 fetches, buffer thresholds {never, every append, 3 msgs}, index interval {1,100}, cache on/off, one fixed interleaving per history; it is run fault-free to obtain its boundary-operation sequence o_0..o_n-1 (upload_segment, upload_index, update_offsets), then re-run for EVERY k in 0..n-1 in two variants: crash just before o_k, and o_k's effect applied with the broker dead before learning it. evaluations = crash runs + baseline runs; distinct = (history, k, variant); non-trivial = crash run in which the crash point was reached and >= 1 acknowledgement preceded it",
 		"fake S3 atomic puts; surviving metadata store = real InMemoryStore", "the interleaving of each history is fixed by a PRNG over non-fault actions; C01/C05 explore interleavings")
-	nh := r.N(25, 300)
+	nh := r.N(40, 400)
 	for hi := 0; hi < nh; hi++ {
 		rng := r.Rand(hi)
 		cfg := c06History(rng, hi)
